@@ -17,7 +17,7 @@ import c07_keys as ck
 from c07_keys import IMPORTS, PRELUDE, cblob, cpyin, cpystr, ckey, ctable, o_bytes, o_str, run_recorded
 
 PROP = 'C07'
-EXCLUDED_ROWS = (b'SSp', b'GSp')
+EXCLUDED_ROWS = ()
 
 
 # ------------------------------------------------------------------------------------------------
@@ -36,7 +36,7 @@ def compare_tables(ctx) -> list[str]:
     prelude = 'Definition mkrow_b (t : bytes) (el : nat) (b : bytes) (pl : nat) : row := {| r_txt := t; r_enclen := el; r_bin := b; r_paylen := pl |}.'
     bad = ctx.coq_mismatches('table', IMPORTS, 'fun l => list_eqb row_eqb table l', 'Bool.eqb', 'list row', 'bool',
                              [(lit, 'true')], prelude=prelude)
-    ctx.table('encoding.base58_encodings (41 of 43 rows, order included; SSp/GSp excluded with side condition checked)')
+    ctx.table('encoding.base58_encodings (all rows, order included)')
     if bad:
         problems.append('base58_encodings differs from the model table (Client/KeyGlue.v `table`)')
     return problems
@@ -159,7 +159,7 @@ def oracle_sign_verify(ctx, rng, curve: bytes, secret: bytes, m, mbytes: bytes, 
         report(f'CHECK_SIGNATURE does not push True for a signature Key.verify accepts: {v!r}',
                {**base, 'key': k.public_key(), 'bytes': mbytes.hex(), 'repro': 'harness/c07_keys.py check_signature_impl(key, signature, bytes)'})
     raw = base58_decode(s.encode())
-    ind = ck.ref_verify(curve, k.public_point, raw, mbytes)
+    ind = ck.ref_verify(curve, k.public_point, raw, mbytes) if (not heavy or generic) else None
     ctx.dist[f'independent:{c}:{ind}'] += 1
     if ind is False:
         report('an independent implementation (cryptography) rejects the signature over the Blake2b-256 digest',
@@ -256,10 +256,12 @@ def run(ctx: lib.Ctx) -> None:
         if len(violations) < 3:
             violations.append((what, replay))
 
-    problems = compare_tables(ctx)
+    import concurrent.futures
+    pool = concurrent.futures.ThreadPoolExecutor(max_workers=1)
+    table_job = pool.submit(compare_tables, ctx)      # one coqc run, overlapped with the generation below
     cs = Cases(ctx)
 
-    per_curve = {b'ed': ctx.n(4, 40), b'sp': ctx.n(4, 40), b'p2': ctx.n(4, 40), b'BL': ctx.n(2, 10)}
+    per_curve = {b'ed': ctx.n(3, 40), b'sp': ctx.n(3, 40), b'p2': ctx.n(3, 40), b'BL': ctx.n(1, 8)}
     for curve in ck.CURVES:
         for ki in range(per_curve[curve]):
             secret = ck.rand_secret(rng, curve)
@@ -327,18 +329,26 @@ def run(ctx: lib.Ctx) -> None:
             # rare shapes: a signature whose r or s has a leading zero byte (fixed-width serialisation), found by grinding messages;
             # for P-256 also encodings fastecdsa refuses with its own exception classes (r, s outside [1, n-1]; bad SEC1 prefix byte)
             if curve in (b'sp', b'p2') and ki < ctx.n(1, 6):
-                for _ in range(3000):
-                    m = rng.randbytes(6)
-                    raw = base58_decode(k.sign(m).encode())
-                    if raw[0] == 0 or raw[32] == 0:
-                        break
-                ctx.dist[f'leading-zero-signature:{curve.decode()}:{raw[0] == 0 or raw[32] == 0}'] += 1
-                for generic in (False, True):
-                    ok, s = impl_sign(cs, pub, sec, curve, m, generic, 'leading-zero')
-                    oracle_sign_verify(ctx, rng, curve, secret, m, m, generic, n_alter=1, report=report)
-                    if ok:
-                        impl_verify(cs, pub, None, curve, s, m, 'leading-zero')
-                        impl_checksig(cs, pk_txt, s, m, 'leading-zero')
+                for pos in (0, 32):                  # leading zero byte in r, then in s
+                    m, found = b'', False
+                    for _ in range(4000):
+                        m = rng.randbytes(6)
+                        ok_g, s_g = lib.call(k.sign, m)
+                        if not ok_g:
+                            report(f'signing failed ({curve.decode()}): {s_g!r}',
+                                   {'curve': curve.decode(), 'secret_exponent': secret.hex(), 'message': m.hex(), 'message_is_str': False, 'generic': False,
+                                    'repro': f"Key.from_secret_exponent(bytes.fromhex('{secret.hex()}'), b'{curve.decode()}').sign(bytes.fromhex('{m.hex()}'))"})
+                            break
+                        if base58_decode(s_g.encode())[pos] == 0:
+                            found = True
+                            break
+                    ctx.dist[f'leading-zero-{"r" if pos == 0 else "s"}:{curve.decode()}:{found}'] += 1
+                    for generic in (False, True):
+                        ok, s = impl_sign(cs, pub, sec, curve, m, generic, 'leading-zero')
+                        oracle_sign_verify(ctx, rng, curve, secret, m, m, generic, n_alter=1, report=report)
+                        if ok:
+                            impl_verify(cs, pub, None, curve, s, m, 'leading-zero')
+                            impl_checksig(cs, pk_txt, s, m, 'leading-zero')
             if curve in (b'sp', b'p2') and ki < ctx.n(1, 4):
                 m = rng.randbytes(4)
                 raw = base58_decode(k.sign(m).encode())
@@ -400,6 +410,8 @@ def run(ctx: lib.Ctx) -> None:
             if e == val and not (ok2 and val2 == v):
                 report('base58_decode does not invert base58_encode', {'payload': v.hex(), 'prefix': prefix.decode(), 'encoded': val.decode()})
 
+    problems = table_job.result()
+    pool.shutdown()
     bad = ctx.coq_mismatches('keys', IMPORTS, 'run_case', 'outcome_eqb', 'otable * op', 'outcome', cs.cases, shard=100, prelude=PRELUDE)
     ctx.extra['correspondence_cases'] = len(cs.cases)
     ctx.extra['correspondence_disagreements'] = len(bad)
